@@ -165,6 +165,22 @@ def _backprop(var, grad):  # pragma: no cover
 
 
 class GRUnit(Operation):
+    # The operands of the layer: shapes X (T, N, C); U* (C, D); W* (D, D); b* (D,).
+    # They are looked up in `self.variables`, which mygrad re-routes when an operand
+    # is updated in-place after the forward pass; a private reference to the caller's
+    # tensor would see the updated values and would be handed the gradient instead
+    # of the tensor that participates in the graph.
+    X = property(lambda self: self.variables[0])
+    Uz = property(lambda self: self.variables[1])
+    Wz = property(lambda self: self.variables[2])
+    bz = property(lambda self: self.variables[3])
+    Ur = property(lambda self: self.variables[4])
+    Wr = property(lambda self: self.variables[5])
+    br = property(lambda self: self.variables[6])
+    Uh = property(lambda self: self.variables[7])
+    Wh = property(lambda self: self.variables[8])
+    bh = property(lambda self: self.variables[9])
+
     def __call__(
         self, X, Uz, Wz, bz, Ur, Wr, br, Uh, Wh, bh, s0=None, bp_lim=None, dropout=0.0
     ):
@@ -174,32 +190,8 @@ class GRUnit(Operation):
         self._dropout = dropout
         self.bp_lim = bp_lim if bp_lim is not None else len(X) - 1
 
-        self.X = X  # type: Tensor  # shape=(T, N, C)
-
-        self.Uz = Uz  # type: Tensor  # shape=(C, D)
-        self.Wz = Wz  # type: Tensor  # shape=(D, D)
-        self.bz = bz  # type: Tensor  # shape=(D,)
-
-        self.Ur = Ur  # type: Tensor  # shape=(C, D)
-        self.Wr = Wr  # type: Tensor  # shape=(D, D)
-        self.br = br  # type: Tensor  # shape=(D,)
-
-        self.Uh = Uh  # type: Tensor  # shape=(C, D)
-        self.Wh = Wh  # type: Tensor  # shape=(D, D)
-        self.bh = bh  # type: Tensor  # shape=(D,)
-
-        self.variables = (
-            self.X,
-            self.Uz,
-            self.Wz,
-            self.bz,
-            self.Ur,
-            self.Wr,
-            self.br,
-            self.Uh,
-            self.Wh,
-            self.bh,
-        )
+        # the operands are read through `self.variables` (see the properties below)
+        self.variables = (X, Uz, Wz, bz, Ur, Wr, br, Uh, Wh, bh)
 
         self.type = max(t.dtype for t in self.variables)
 
